@@ -107,3 +107,17 @@ impl WriteHandler {
 //@trusted ffi::WriteHandler callbacks: C function pointers, opaque (any WriteResult or None when the callback is not set)
 pub struct AuthorizationHandler { pub x: u8 }
 //@trusted ffi::AuthorizationHandler: C function pointers, opaque
+// request parameters as passed by C: unit id and timeout in milliseconds
+//@item @ffi/ffi.rs | RequestParam | derive=Clone
+pub uninterp spec fn spec_millis(ms: u64) -> std::time::Duration;
+pub assume_specification [std::time::Duration::from_millis] (ms: u64) -> (r: std::time::Duration) ensures r == spec_millis(ms);
+//@trusted std::time::Duration::from_millis: the duration of that many milliseconds (`spec_millis`, uninterpreted)
+impl RequestParam {
+//@fn @ffi/ffi.rs | RequestParam::timeout | tags=C18
+//@|    ensures r == spec_millis(self.timeout),
+}
+// completion callbacks (C function pointers): opaque
+pub struct BitReadCallback { pub x: u8 }
+pub struct RegisterReadCallback { pub x: u8 }
+pub struct WriteCallback { pub x: u8 }
+//@trusted ffi::{BitReadCallback, RegisterReadCallback, WriteCallback}: C function pointers, opaque
